@@ -14,7 +14,8 @@
 (*     enum   |-> <<rank, ...>> Next-only enumeration of a fresh searcher  *)
 (*     leaves |-> << [q |-> leaf query, post |-> <<rank, ...>>], ... >>    *)
 (*                              per-leaf postings read back from the index *)
-(*     prog   |-> << [op |-> "next" | "adv", t |-> target rank (= number   *)
+(*     progs  |-> << program, ... >>, each run on a fresh searcher:        *)
+(*                 << [op |-> "next" | "adv", t |-> target rank (= number  *)
 (*                    of live ids below the real target; -1 for next),     *)
 (*                    r |-> returned rank, -1 = nothing], ... >> ]         *)
 (*                                                                         *)
@@ -46,32 +47,48 @@ StrictlyAscending(s) == \A i \in DOMAIN s : \A j \in DOMAIN s : i < j => s[i] < 
 
 M(rec) == SetOf(rec.enum)
 
-\* the contract's cursor before call i, and what call i must return
-RECURSIVE Cursor(_, _)
-Bound(rec, i)  == IF rec.prog[i].op = "adv" THEN Max2(Cursor(rec, i), rec.prog[i].t) ELSE Cursor(rec, i)
-Demand(rec, i) == FirstFrom(M(rec), Bound(rec, i))
-Cursor(rec, i) == IF i = 1 THEN 0
-                  ELSE IF Demand(rec, i - 1) >= 0 THEN Demand(rec, i - 1) + 1 ELSE Big
+\* the contract's cursor before call i of program p, and what call i must return
+RECURSIVE Cursor(_, _, _)
+Bound(rec, p, i)  == IF p[i].op = "adv" THEN Max2(Cursor(rec, p, i), p[i].t) ELSE Cursor(rec, p, i)
+Demand(rec, p, i) == FirstFrom(M(rec), Bound(rec, p, i))
+Cursor(rec, p, i) == IF i = 1 THEN 0
+                     ELSE IF Demand(rec, p, i - 1) >= 0 THEN Demand(rec, p, i - 1) + 1 ELSE Big
+
+Progs(rec) == { rec.progs[k] : k \in DOMAIN rec.progs }
 
 \* --- harness sanity: only forward, non-repeated targets were generated
 ForwardRec(rec) ==
-    \A i \in DOMAIN rec.prog :
-        rec.prog[i].op = "adv" =>
-            \A j \in 1..(i - 1) : rec.prog[i].t > rec.prog[j].r /\ rec.prog[i].t > rec.prog[j].t
+    \A p \in Progs(rec) : \A i \in DOMAIN p :
+        p[i].op = "adv" => \A j \in 1..(i - 1) : p[i].t > p[j].r /\ p[i].t >= p[j].t
 
 \* --- the property, clause by clause
 EnumAscendingRec(rec) == StrictlyAscending(rec.enum)
 AscendingRec(rec) ==
-    \A i \in DOMAIN rec.prog : \A j \in DOMAIN rec.prog :
-        (i < j /\ rec.prog[i].r >= 0 /\ rec.prog[j].r >= 0) => rec.prog[i].r < rec.prog[j].r
-OnlyMatchesRec(rec) == \A i \in DOMAIN rec.prog : rec.prog[i].r >= 0 => rec.prog[i].r \in M(rec)
+    \A p \in Progs(rec) : \A i \in DOMAIN p : \A j \in DOMAIN p :
+        (i < j /\ p[i].r >= 0 /\ p[j].r >= 0) => p[i].r < p[j].r
+OnlyMatchesRec(rec) == \A p \in Progs(rec) : \A i \in DOMAIN p : p[i].r >= 0 => p[i].r \in M(rec)
 AdvanceLandsRec(rec) ==
-    \A i \in DOMAIN rec.prog : rec.prog[i].op = "adv" => rec.prog[i].r = Demand(rec, i)
+    \A p \in Progs(rec) : \A i \in DOMAIN p : p[i].op = "adv" => p[i].r = Demand(rec, p, i)
 NextIsNextRec(rec) ==
-    \A i \in DOMAIN rec.prog : rec.prog[i].op = "next" => rec.prog[i].r = Demand(rec, i)
+    \A p \in Progs(rec) : \A i \in DOMAIN p : p[i].op = "next" => p[i].r = Demand(rec, p, i)
 \* the enumeration is the declarative answer, and so is every leaf's posting list
 EnumIsHitsRec(rec) == M(rec) = Q!Hits(rec.q, rec.corpus)
 LeavesRec(rec) == \A i \in DOMAIN rec.leaves : SetOf(rec.leaves[i].post) = Q!Hits(rec.leaves[i].q, rec.corpus)
+
+\* classification only (JudgeSearcher_q2.cfg): programs whose FIRST call is an
+\* Advance on a tree containing a boolean with must and should(min >= 1) are
+\* prone to the deviation modelled in Searchers.tla (configuration c08_q2): the
+\* first result may skip matches.  Everything after the first call, and every
+\* other clause, is still demanded.
+RECURSIVE CursorT(_, _, _)
+BoundT(rec, p, i)  == IF p[i].op = "adv" THEN Max2(CursorT(rec, p, i), p[i].t) ELSE CursorT(rec, p, i)
+DemandT(rec, p, i) == IF i = 1 THEN p[1].r ELSE FirstFrom(M(rec), BoundT(rec, p, i))
+CursorT(rec, p, i) == IF i = 1 THEN 0
+                      ELSE IF DemandT(rec, p, i - 1) >= 0 THEN DemandT(rec, p, i - 1) + 1 ELSE Big
+TailContractRec(rec) ==
+    \A p \in Progs(rec) :
+        /\ \A i \in DOMAIN p : p[i].r = DemandT(rec, p, i)
+        /\ (p[1].r >= 0 => p[1].r >= p[1].t)
 
 Forward       == l <= Len(Trace) => ForwardRec(Trace[l])
 EnumAscending == l <= Len(Trace) => EnumAscendingRec(Trace[l])
@@ -81,4 +98,5 @@ AdvanceLands  == l <= Len(Trace) => AdvanceLandsRec(Trace[l])
 NextIsNext    == l <= Len(Trace) => NextIsNextRec(Trace[l])
 EnumIsHits    == l <= Len(Trace) => EnumIsHitsRec(Trace[l])
 LeafPostings  == l <= Len(Trace) => LeavesRec(Trace[l])
+TailContract  == l <= Len(Trace) => TailContractRec(Trace[l])
 =============================================================================
